@@ -1,4 +1,5 @@
 """Concrete E2/E3 queries (MIR of the working tree -> z3)."""
+import os
 import re
 
 import z3
@@ -1168,6 +1169,16 @@ NLA_NATIVES = {
             d.extend_from_slice(&[0, 0, 0, 0]);
             more.push(d);
         }
+        // every AV id 1..=10 carrying an unpaired UTF-16 surrogate, then a valid timestamp and EOL
+        for id in 1u8..11 {
+            let mut d = base.clone();
+            let info_len = 4 + 2 + 4 + 8 + 4;
+            d.extend_from_slice(&[info_len, 0, info_len, 0, 48, 0, 0, 0]);
+            d.extend_from_slice(&[id, 0, 2, 0, 0x00, 0xD8]);
+            d.extend_from_slice(&[7, 0, 8, 0, 1, 2, 3, 4, 5, 6, 7, 8]);
+            d.extend_from_slice(&[0, 0, 0, 0]);
+            more.push(d);
+        }
         for m in [a, b, c].iter().chain(more.iter()) {
             let mut n = Ntlm::new("".to_string(), "".to_string(), "".to_string());
             n.create_negotiate_message().unwrap();
@@ -1604,6 +1615,7 @@ SETUP_TARGETS = [
     (r"^parse_payload$", []),
     (r"^connect::<S>$|^sec::connect$|^connect$", []),
 ]
+SESSION_TARGETS_NATIVES = {r"read_fast_path$": None}
 SESSION_TARGETS = [
     (r"^global::<impl at src/core/global\.rs[^>]*>::(read|read_data_pdu|read_fast_path|read_demand_active_pdu|read_synchronize_pdu|read_control_pdu|read_font_map_pdu|from_stream|from_control|from_pdu|from_fp)$", []),
     (r"^capability::<impl at src/core/capability\.rs[^>]*>::from_capability_set$", []),
@@ -2178,3 +2190,87 @@ def info_packet_counts(ctx, mir, stats):
     if not done:
         raise Inconclusive("ENCODING-FAILED: rdp_infos fields not recognised")
     return obs
+
+
+# --------------------------------------------------------------------------
+# session readers: native smoke battery + guards
+# --------------------------------------------------------------------------
+SESSION_NATIVE = _native("verif_replay_session_readers", "src/core/global.rs", """
+        // every activation-phase reader is fed every kind of well-formed share-control PDU plus odd counts: value or error, no panic
+        let demand = |ncaps: u16| { let mut b = vec![0u8, 0, 0, 0,  0, 0,  4, 0]; b.extend_from_slice(&[ncaps as u8, (ncaps >> 8) as u8, 0, 0]); b.extend_from_slice(&[0, 0, 0, 0]); b };
+        let wrap = |t: u16, body: Vec<u8>| { let total = (body.len() + 6) as u16; let mut v = vec![total as u8, (total >> 8) as u8, t as u8, (t >> 8) as u8, 0xea, 0x03]; v.extend_from_slice(&body); v };
+        let data = |t2: u8, body: Vec<u8>| { let mut b = vec![0xea, 0x03, 0x01, 0x00, 0, 1]; let ul = (body.len() + 18) as u16; b.extend_from_slice(&[ul as u8, (ul >> 8) as u8, t2, 0, 0, 0]); b.extend_from_slice(&body); b };
+        let mut pdus: Vec<Vec<u8>> = vec![
+            wrap(0x11, demand(0)), wrap(0x11, demand(5)), wrap(0x11, demand(0xffff)),
+            wrap(0x16, vec![0xea, 0x03, 0x01, 0x00, 0, 0]),
+            wrap(0x17, data(0x1f, vec![1, 0, 0xea, 0x03])), wrap(0x17, data(0x14, vec![4, 0, 0, 0, 0, 0, 0, 0])), wrap(0x17, data(0x28, vec![0, 0, 0, 0, 3, 0, 4, 0])),
+            wrap(0x17, data(0x2f, vec![0, 0, 0, 0])), wrap(0x17, data(0x99, vec![])), wrap(0x13, vec![]), wrap(0x1a, vec![1, 2, 3]),
+        ];
+        pdus.push(vec![]);
+        for p in pdus.iter() {
+            for which in 0..6 {
+                let mut c = Client::new(1007, 1003, 800, 600, KeyboardLayout::US, "x");
+                let mut s = Cursor::new(p.clone());
+                let _ = match which {
+                    0 => c.read_demand_active_pdu(&mut s).map(|_| ()),
+                    1 => c.read_synchronize_pdu(&mut s).map(|_| ()),
+                    2 => c.read_control_pdu(&mut s, Action::CtrlactionCooperate).map(|_| ()),
+                    3 => c.read_control_pdu(&mut s, Action::CtrlactionGrantedControl).map(|_| ()),
+                    4 => c.read_font_map_pdu(&mut s).map(|_| ()),
+                    _ => c.read_data_pdu(&mut s),
+                };
+            }
+        }""")
+
+
+def guarded_by(fn_regex, guard_regex, target_regex, what, native=None):
+    """E2: in every matching function, each call matching target_regex is reachable only through ONE edge of the
+    switch that tests the result of a call matching guard_regex (the guard dominates the call)."""
+    def fn(ctx, mir, stats):
+        obs = []
+        for f in find_fn(mir, fn_regex, unique=False):
+            tg = call_blocks(f, target_regex)
+            if not tg:
+                continue
+            guards = call_blocks(f, guard_regex)
+            for t in tg:
+                ok = False
+                for gb in guards:
+                    rs = result_switch(f, gb)
+                    if not rs:
+                        continue
+                    sw, edges = rs
+                    for lab, dst in edges.items():
+                        if fp_reachable(f, f.order[0], t, stats) and not fp_reachable(f, f.order[0], t, stats, removed_edges={(sw, lab, dst)}):
+                            ok = True
+                obs.append({"id": "%s:%s-guarded[%s]" % (f.name[-40:], what, t), "ok": ok, "functions": [f.name], "needs_native": True, "native": None if ok else native,
+                            "detail": "%s is reached only through one outcome of the %s test" % (what, guard_regex[:40]) if ok else "%s is reachable without the %s test deciding it (layout mismatch on other PDU kinds)" % (what, guard_regex[:40]),
+                            "where": "%s %s" % (f.name, t)})
+        if not obs:
+            raise Inconclusive("ENCODING-FAILED: no call matching %s found" % target_regex)
+        return obs
+    return fn
+
+
+def acyclic(src_rel, allow=()):
+    """E2: no function defined in the given source file has a cycle in its CFG (a loop that could spin), except the listed ones."""
+    def fn(ctx, mir, stats):
+        text = open(os.path.join(ctx["src"], src_rel)).read() if "src" in ctx else ""
+        names = set(re.findall(r"\bfn (\w+)", text))
+        obs = []
+        for f in mir:
+            base = re.sub(r"::\{closure#\d+\}$", "", f.name).split("::")[-1]
+            owner = re.sub(r"::\{closure#\d+\}$", "", f.name)
+            if base not in names or re.search(r"<impl at (?!%s)" % re.escape(src_rel), owner):
+                continue
+            if "<impl at" not in owner and not re.search(r"\bfn %s\b" % re.escape(base), text):
+                continue
+            cyc = [b for b in f.order if not f.blocks[b].cleanup and any(fp_reachable(f, t, b, stats) for lab, t in f.succs(b))]
+            ok = not cyc or f.name in allow
+            if cyc or base in names:
+                obs.append({"id": "%s:acyclic" % f.name[-50:], "ok": ok, "functions": [f.name], "needs_native": True,
+                            "detail": "no loop in %s" % f.name if not cyc else "%s contains a loop (blocks %s): a read loop on the NLA path can spin on a closed or stalled connection" % (f.name, cyc[:4]), "where": f.name})
+        if not obs:
+            raise Inconclusive("ENCODING-FAILED: no function of %s found in the MIR" % src_rel)
+        return obs
+    return fn
